@@ -180,10 +180,12 @@ outer:
 				// q is case insensitive
 				case len(param) > 2 && strings.EqualFold(param[:2], "q="):
 					qRaw := param[2:]
-					if qRaw == "0" || qRaw == "0.0" {
-						continue outer // skip this part, as it has q=0
-					}
 					if qVal, err := strconv.ParseFloat(qRaw, 64); err == nil {
+						if qVal == 0 {
+							// q=0 in any spelling ("0", "0.0", "0.00", "0.000")
+							// means "not acceptable": skip this part.
+							continue outer
+						}
 						q = unique.Make(
 							min(max(qVal, minQValue.Value()), maxQValue.Value()),
 						)
